@@ -232,7 +232,35 @@ def via_avro(defn, tmp):
         rd.close()
 
 
+def via_null_fields(defn, how):
+    """The deprecated definition-by-text form: the field list is None / nil / null and the name carries the text."""
+    import warnings
+
+    from flow.record import RecordDescriptor, RecordStreamReader
+
+    name = defn[0]
+    with warnings.catch_warnings():
+        warnings.simplefilter("ignore")
+        if how == "constructor-none":
+            return RecordDescriptor(name, None)
+        if how == "stream-nil-fields":
+            w = refcodec.Widths()
+            data = refcodec.HEADER_FRAME + refcodec.frame(refcodec.pack(refcodec.ext14(refcodec.T_DESC, [name, None], w), w))
+            rd = RecordStreamReader(io.BytesIO(data))
+            list(rd)
+            ds = [d for k, d in rd.packer.descriptors.items() if isinstance(k, tuple)]
+            if len(ds) != 1:
+                raise RuntimeError("stream channel yielded %d descriptors" % len(ds))
+            return ds[0]
+        from flow.record import JsonRecordPacker
+
+        p = JsonRecordPacker()
+        return p.unpack(json.dumps({"_type": "recorddescriptor", "_data": [name, None]}))
+
+
 def deliver(channel, defn, tmp):
+    if channel in ("constructor-none", "stream-nil-fields", "json-null-fields"):
+        return via_null_fields(defn, channel)
     if channel == "constructor":
         return via_constructor(defn)
     if channel == "stream":
@@ -249,6 +277,10 @@ def check_definition(case, ctx):
     defn = (case["name"], tuple(tuple(f) for f in case["fields"]))
     channel = case["channel"]
     valid = ref_valid(defn)
+    if case.get("role") == "null-field-list" and "\n" in defn[0]:
+        # multi-line text is a whole definition (name line + field lines): the name to judge is its first line
+        first = [ln.strip() for ln in defn[0].split("\n") if ln.strip()][0]
+        valid = ref_valid_type_name(first) and False  # payload texts are never valid definitions here
     if channel == "avro" and not defn[1]:
         return  # the avro 'doc' detection needs at least one field (']]]' suffix)
     ctx.cls("channel:" + channel, "grammar:" + ("inside" if valid else "outside"), "role:" + case.get("role", "gen"))
@@ -424,6 +456,19 @@ def reserved_position_cases(tier):
     return cases
 
 
+def null_field_list_cases(tier):
+    """Hostile and valid type names delivered without a field list (the validation must not depend on the list)."""
+    names = [s_ for s_ in short_strings(2) if s_ == s_.strip() and "\n" not in s_ and "\r" not in s_ and s_]
+    names += ["t\u00e9st", "\u0430dmin/user", "_hidden", "__class__", "test/", "/test", "a//b", "a b", "a;b", "a(b)", "a.b",
+              "a(*[__import__('builtins').__dict__.__setitem__('VERIF_C06_PWNED', True) or Record]):#",
+              "x(Record): pass\nimport builtins; builtins.VERIF_C06_PWNED = True\nclass y", "ok/name", "Record", "valid"]
+    cases = []
+    for n in names:
+        for ch in ("constructor-none", "stream-nil-fields", "json-null-fields"):
+            cases.append({"name": n, "fields": [], "channel": ch, "role": "null-field-list"})
+    return cases
+
+
 def exhaustive_cases(tier):
     cases = []
     for role in ("type-name", "field-name", "field-type"):
@@ -513,5 +558,6 @@ def parts(tier):
         Part("derived-type-names", check_definition, cases=type_name_cases, exhaustive=True),
         Part("template-identifiers", check_definition, cases=template_name_cases, exhaustive=True),
         Part("reserved-field-positions", check_definition, cases=reserved_position_cases, exhaustive=True),
+        Part("null-field-list", check_definition, cases=null_field_list_cases, exhaustive=True),
         Part("generated", check_definition, strategy=generated_case(), examples=(250, 20000)),
     ]
